@@ -606,6 +606,18 @@ def r_flow_parse(ctx) -> RuleResult:
             ok, why = True, "membership / size"
         elif isinstance(p, (ast.For, ast.comprehension)) and p.iter is n:
             ok, why = True, "keys visited (a dictionary keyed by atom index)"
+        elif isinstance(p, ast.Starred):
+            # *table inside max(...) / min(...) / set(...) / sorted(...): the keys, consumed without regard to order
+            q = p
+            for _ in range(3):
+                q = parents[id(q)][0]
+                if isinstance(q, ast.Call) and isinstance(q.func, ast.Name) and q.func.id in ("max", "min", "set", "frozenset", "sorted", "len", "any", "all", "sum"):
+                    ok, why = True, f"keys handed to {q.func.id}()"
+                    break
+                if not isinstance(q, (ast.Tuple, ast.List, ast.Set)):
+                    break
+            if not ok:
+                raise AnalysisError(f"R-FLOW-PARSE: in {m.qualname} the attribute table is used as `{short(p)}`; this rule cannot tell whether that is order-sensitive")
         else:
             raise AnalysisError(f"R-FLOW-PARSE: in {m.qualname} the attribute table is used as `{short(p)}`; this rule cannot tell whether that is order-sensitive")
         res.inst(m.fq, f"self.{attr_field} in `{short(p, 60)}`", "ok" if ok else "fail", detail=why)
